@@ -61,4 +61,415 @@ theorem encPayload_pure {s s' : St} {ans : Ans} {w0 w : Writer} {hdr : Nat} {il 
     | (simp only [Out.ok.injEq, Prod.mk.injEq] at h; obtain ⟨rfl, rfl⟩ := h
        cases il <;> cases ff <;> cases hem : ans.emit <;> simp_all)
 
+theorem core_eq_iff {x y : St} : core x = core y ↔
+    x.params = y.params ∧ x.inputPos = y.inputPos ∧ x.lastFlushPos = y.lastFlushPos ∧ x.lastProcessedPos = y.lastProcessedPos
+    ∧ x.lastBytes = y.lastBytes ∧ x.lastBytesBits = y.lastBytesBits ∧ x.remainingMetadata = y.remainingMetadata
+    ∧ x.streamState = y.streamState ∧ x.isLastBlockEmitted = y.isLastBlockEmitted ∧ x.isInitialized = y.isInitialized
+    ∧ x.isFirstMb = y.isFirstMb ∧ x.ring = y.ring ∧ x.first2 = y.first2 ∧ x.nEnc = y.nEnc ∧ x.oracleBad = y.oracleBad
+    ∧ x.prefixBad = y.prefixBad := by
+  cases x; cases y
+  simp only [core, St.mk.injEq]
+  constructor
+  · intro h; simp_all
+  · intro h; simp_all
+
+theorem encMagic_core {x y : St} (h : core x = core y) (w : Writer) :
+    core (encMagic x w).1 = core (encMagic y w).1 ∧ (encMagic x w).2 = (encMagic y w).2 := by
+  have h' := core_eq_iff.mp h
+  obtain ⟨h1, _, _, _, _, _, _, _, _, _, h11, _⟩ := h'
+  unfold encMagic
+  rw [h1, h11]
+  split
+  · refine ⟨?_, rfl⟩
+    rw [core_eq_iff] at h ⊢
+    simp_all
+  · exact ⟨h, rfl⟩
+
+theorem encPrelude_core {x y x' : St} {w w' : Writer} {hdr hdr' bytes : Nat} (h : core x = core y)
+    (hx : encPrelude x w hdr bytes = .ok (x', w', hdr')) :
+    ∃ y', encPrelude y w hdr bytes = .ok (y', w', hdr') ∧ core x' = core y' := by
+  cases x; cases y
+  simp only [core, St.mk.injEq] at h
+  obtain ⟨rfl, rfl, rfl, rfl, rfl, rfl, _, _, _, _, rfl, rfl, rfl, rfl, rfl, rfl, rfl, rfl, rfl, rfl⟩ := h
+  unfold encPrelude at hx ⊢
+  simp only at hx ⊢
+  split_all hx
+  all_goals first
+    | (simp at hx; done)
+    | (simp only [Out.ok.injEq, Prod.mk.injEq] at hx; obtain ⟨rfl, rfl, rfl⟩ := hx
+       simp_all [core, Nat.not_lt_of_le])
+
+theorem encPayloadPure_core {x y : St} (h : core x = core y) (ans : Ans) (w0 w : Writer) (hdr : Nat) (il ff : Bool) :
+    core (encPayloadPure x ans w0 w hdr il ff) = core (encPayloadPure y ans w0 w hdr il ff)
+    ∧ (encPayloadPure x ans w0 w hdr il ff).pending = (encPayloadPure y ans w0 w hdr il ff).pending := by
+  obtain ⟨h1, h2, h3, h4, h5, h6, h7, h8, h9, h10, h11, h12, h13, h14, h15, h16⟩ := core_eq_iff.mp h
+  have hu : wsub64 x.inputPos x.lastProcessedPos = wsub64 y.inputPos y.lastProcessedPos := by rw [h2, h4]
+  rw [core_eq_iff]
+  by_cases hq : x.params.quality = 0 ∨ x.params.quality = 1
+  · have hq' : y.params.quality = 0 ∨ y.params.quality = 1 := h1 ▸ hq
+    by_cases hz : wsub64 x.inputPos x.lastProcessedPos = 0 ∧ il = false
+    · have hz' : wsub64 y.inputPos y.lastProcessedPos = 0 ∧ il = false := hu ▸ hz
+      simp [encPayloadPure, St.unprocessed, hq, hz, hq', hz', *]
+    · have hz' : ¬ (wsub64 y.inputPos y.lastProcessedPos = 0 ∧ il = false) := hu ▸ hz
+      simp [encPayloadPure, St.unprocessed, hq, hz, hq', hz', *]
+  · have hq' : ¬ (y.params.quality = 0 ∨ y.params.quality = 1) := h1 ▸ hq
+    by_cases h3' : il = false ∧ ff = false ∧ ans.emit = false
+    · simp [encPayloadPure, hq, hq', h3', *]
+    · by_cases h4' : il = false ∧ x.inputPos = x.lastFlushPos
+      · have h4'' : il = false ∧ y.inputPos = y.lastFlushPos := by rw [← h2, ← h3]; exact h4'
+        have h3'' : ¬ (ff = false ∧ ans.emit = false) := fun hh => h3' ⟨h4'.1, hh⟩
+        simp [encPayloadPure, hq, hq', h3'', h4', h4'', *]
+      · have h4'' : ¬ (il = false ∧ y.inputPos = y.lastFlushPos) := by rw [← h2, ← h3]; exact h4'
+        simp [encPayloadPure, hq, hq', h3', h4', h4'', *]
+
+/-- the abstract `encode_data`: what a successful invocation does to the core state and which
+bytes it produces — no capacity anywhere -/
+def uEncOf (r : Out (St × Writer × Nat)) (ans : Ans) (c : Writer) (il ff : Bool) : Option (St × Bytes) :=
+  match r with
+  | .ok (a2, w, hdr) => some (core (encPayloadPure a2 ans c w hdr il ff), (encPayloadPure a2 ans c w hdr il ff).pending)
+  | _ => none
+
+def uEnc (o : Oracle) (a : St) (site : Nat) (il ff : Bool) : Option (St × Bytes) :=
+  uEncOf (encPre3 (encMagic (encStart a il) a.carry) (a.unprocessed % two32)) (o a.nEnc (reqOf a site il ff)) a.carry il ff
+
+theorem encStart_core (s : St) (il : Bool) : core (encEntry s il) = core (encStart (core s) il) := by
+  unfold encEntry growStorage encStart core
+  split <;> rfl
+
+/-- **`encode_data` is blind to the output side**: a successful invocation (nothing pending) is the
+abstract one on the core state -/
+theorem encode_abs {o : Oracle} {s s' : St} {site : Nat} {il ff : Bool} {req : Req}
+    (h : encodeData o s site il ff = .ok (s', true, req)) :
+    uEnc o (core s) site il ff = some (core s', s'.pending) := by
+  obtain ⟨_, hc⟩ := encodeData_ok_cases h
+  rcases hc with ⟨_, hh, _⟩ | ⟨_, _, hh, _⟩ | ⟨_, _, hrest⟩
+  · simp at hh
+  · simp at hh
+  · obtain ⟨s2, w, hdr, hpre3, hpay⟩ := encRest_split hrest
+    have hpure := encPayload_pure hpay
+    have hm := encMagic_core (encStart_core s il) s.carry
+    have hpre : encPrelude (encMagic (encEntry s il) s.carry).1 (encMagic (encEntry s il) s.carry).2.1
+        (encMagic (encEntry s il) s.carry).2.2 (s.unprocessed % two32) = .ok (s2, w, hdr) := hpre3
+    have h21 := congrArg Prod.fst hm.2
+    have h22 := congrArg Prod.snd hm.2
+    rw [h21, h22] at hpre
+    obtain ⟨y', hy, hcy⟩ := encPrelude_core hm.1 hpre
+    have hy3 : encPre3 (encMagic (encStart (core s) il) s.carry) (s.unprocessed % two32) = .ok (y', w, hdr) := hy
+    unfold uEnc
+    have e1 : (core s).carry = s.carry := rfl
+    have e2 : (core s).unprocessed = s.unprocessed := rfl
+    have e3 : (core s).nEnc = s.nEnc := rfl
+    have e4 : reqOf (core s) site il ff = reqOf s site il ff := rfl
+    rw [e1, e2, e3, e4, hy3]
+    unfold uEncOf
+    obtain ⟨p1, p2⟩ := encPayloadPure_core hcy (o s.nEnc (reqOf s site il ff)) s.carry w hdr il ff
+    simp only [Option.some.injEq, Prod.mk.injEq]
+    rw [hpure]
+    exact ⟨p1.symm, p2.symm⟩
+
+/-! ### the abstract machine -/
+
+instance (p : Params) : Decidable (fastMode p) := by unfold fastMode; infer_instance
+instance (s : St) : Decidable (PadDue s) := by unfold PadDue; infer_instance
+
+def uCopyOf (r : Out St) (a : Abs) (n : Nat) : Option Abs :=
+  match r with
+  | .ok s1 => some ⟨core s1, a.out, a.input.drop n, a.availIn - n⟩
+  | _ => none
+
+def uCopy (a : Abs) : Option Abs :=
+  if min (remainingInputBlockSize a.s) a.availIn > a.input.length then none
+  else uCopyOf (copyInputToRingBuffer a.s (a.input.take (min (remainingInputBlockSize a.s) a.availIn)) a.input.length) a
+    (min (remainingInputBlockSize a.s) a.availIn)
+
+def uPad (a : Abs) : Abs :=
+  ⟨{ a.s with lastBytes := 0, lastBytesBits := 0 },
+   a.out ++ sealBytes (a.s.lastBytes ||| (6 * 2 ^ a.s.lastBytesBits)) ((a.s.lastBytesBits + 6 + 7) / 8), a.input, a.availIn⟩
+
+def uEncOut (r : Option (St × Bytes)) (a : Abs) (il ff : Bool) : Option Abs :=
+  match r with
+  | some (s', pend) => some ⟨core (markAfterEncode s' il ff), a.out ++ pend, a.input, a.availIn⟩
+  | none => none
+
+def uEncStep (o : Oracle) (op : Nat) (a : Abs) : Option Abs :=
+  uEncOut (uEnc o (updateSizeHint a.s a.availIn) 0 (decide (a.availIn = 0 ∧ op = 2)) (decide (a.availIn = 0 ∧ op = 1))) a
+    (decide (a.availIn = 0 ∧ op = 2)) (decide (a.availIn = 0 ∧ op = 1))
+
+def uCfc (a : Abs) : Abs := { a with s := { a.s with streamState := .processing } }
+
+def uFlushReq (a : Abs) : Abs := { a with s := { a.s with streamState := .flushRequested } }
+
+def uFastBs (a : Abs) : Nat := min (2 ^ a.s.params.lgwin.toNat) a.availIn
+def uFastReq (op : Nat) (a : Abs) : Req :=
+  { site := 2, lo := uFastBs a, hi := a.s.inputPos, isLast := decide (a.availIn = uFastBs a ∧ op = 2),
+    forceFlush := decide (a.availIn = uFastBs a ∧ op = 1) }
+
+def uFast (o : Oracle) (op : Nat) (a : Abs) : Option Abs :=
+  if uFastBs a > a.input.length then none else
+  let ans := o a.s.nEnc (uFastReq op a)
+  let w : Writer := a.s.carry ++ ans.bits
+  let st := if (uFastReq op a).isLast then SState.finished else if (uFastReq op a).forceFlush then SState.flushRequested else a.s.streamState
+  some ⟨{ a.s with nEnc := a.s.nEnc + 1, oracleBad := (a.s.oracleBad || !ans.result), lastBytes := (carryOf w).1,
+                   lastBytesBits := (carryOf w).2, streamState := st },
+        a.out ++ wholeBytes w, a.input.drop (uFastBs a), a.availIn - uFastBs a⟩
+
+/-- **the abstract machine** for PROCESS / FLUSH / FINISH requests: one step, or `none` when the
+request is complete.  No output capacity, cursor or buffer size occurs in it. -/
+def ustep (o : Oracle) (op : Nat) (a : Abs) : Option Abs :=
+  if a.s.isInitialized = false then some { a with s := core (ensureInitialized a.s) }
+  else if fastMode a.s.params then
+    if PadDue a.s then some (uPad a)
+    else if a.s.streamState = .processing ∧ (a.availIn ≠ 0 ∨ op ≠ 0) then
+      (if (uFastReq op a).forceFlush = true ∧ uFastBs a = 0 then some (uFlushReq a) else uFast o op a)
+    else if a.s.streamState = .flushRequested then some (uCfc a)
+    else none
+  else
+    if remainingInputBlockSize a.s ≠ 0 ∧ a.availIn ≠ 0 then uCopy a
+    else if PadDue a.s then some (uPad a)
+    else if a.s.streamState = .processing ∧ (remainingInputBlockSize a.s = 0 ∨ op ≠ 0) then uEncStep o op a
+    else if a.s.streamState = .flushRequested then some (uCfc a)
+    else none
+
+/-! ### primitives commute with `core` -/
+
+theorem core_updateSizeHint (s : St) (n : Nat) : core (updateSizeHint s n) = updateSizeHint (core s) n := by
+  unfold updateSizeHint core
+  split <;> rfl
+
+theorem core_markAfterEncode (s : St) (a b : Bool) : core (markAfterEncode s a b) = core (markAfterEncode (core s) a b) := by
+  unfold markAfterEncode core
+  cases a <;> cases b <;> rfl
+
+theorem markAfterEncode_pending (s : St) (a b : Bool) : (markAfterEncode s a b).pending = s.pending := by
+  unfold markAfterEncode
+  cases a <;> cases b <;> rfl
+
+theorem core_ensure (s : St) : core (ensureInitialized (core s)) = core (ensureInitialized s) := by
+  unfold ensureInitialized core
+  split <;> rfl
+
+theorem copy_core {x x' : St} {ch : Bytes} {av : Nat} (hi : x.isInitialized = true)
+    (hx : copyInputToRingBuffer x ch av = .ok x') :
+    ∃ y', copyInputToRingBuffer (core x) ch av = .ok y' ∧ core y' = core x' := by
+  have hic : (core x).isInitialized = true := hi
+  unfold copyInputToRingBuffer at hx ⊢
+  rw [ensureInitialized_id hi] at hx
+  rw [ensureInitialized_id hic]
+  simp only at hx ⊢
+  have e1 : (core x).ring = x.ring := rfl
+  rw [e1]
+  split at hx
+  · rename_i rb hrw
+    split at hx
+    · simp at hx
+    · rename_i hok
+      simp only [Out.ok.injEq] at hx
+      subst hx
+      simp only [if_neg hok]
+      exact ⟨_, rfl, rfl⟩
+  · simp at hx
+  · simp at hx
+
+
+theorem ensure_pending (s : St) : (ensureInitialized s).pending = s.pending := by
+  unfold ensureInitialized
+  split <;> rfl
+
+theorem push_core {s s1 : St} {io io1 : Io} {b : Bool} (hc : ¬ PadDue s)
+    (h : injectFlushOrPushOutput s io = .ok (s1, io1, b)) : core s1 = core s := by
+  unfold injectFlushOrPushOutput at h
+  rw [if_neg (show ¬ (s.streamState = .flushRequested ∧ s.lastBytesBits ≠ 0) from hc)] at h
+  simp only at h
+  split_all h
+  all_goals first
+    | (simp at h; done)
+    | (simp only [Out.ok.injEq, Prod.mk.injEq] at h; obtain ⟨rfl, rfl, rfl⟩ := h; rfl)
+
+theorem fastEncode_abs (s : St) (io : Io) (ans : Ans) (req : Req) (bs : Nat) (ip il ff : Bool) (hp : s.pending = []) :
+    core (fastEncode s io ans req bs ip il ff).1 =
+      { core s with nEnc := s.nEnc + 1, oracleBad := (s.oracleBad || !ans.result),
+                    lastBytes := (carryOf (s.carry ++ ans.bits)).1, lastBytesBits := (carryOf (s.carry ++ ans.bits)).2,
+                    streamState := if il then SState.finished else if ff then SState.flushRequested else s.streamState }
+    ∧ (fastEncode s io ans req bs ip il ff).2.out ++ (fastEncode s io ans req bs ip il ff).1.pending
+        = io.out ++ wholeBytes (s.carry ++ ans.bits)
+    ∧ (fastEncode s io ans req bs ip il ff).2.input = io.input.drop bs
+    ∧ (fastEncode s io ans req bs ip il ff).2.availIn = io.availIn - bs := by
+  unfold fastEncode core St.carry
+  cases ip <;> simp [hp]
+
+
+theorem core_init (s : St) : (core s).isInitialized = s.isInitialized := rfl
+
+theorem uFastBs_abs (s : St) (io : Io) (del : Bytes) : uFastBs (absOf s io del) = fastBs s io := rfl
+theorem uFastReq_abs (op : Nat) (s : St) (io : Io) (del : Bytes) : uFastReq op (absOf s io del) = fastReq op s io := rfl
+theorem abs_input (s : St) (io : Io) (del : Bytes) : (absOf s io del).input = io.input := rfl
+theorem abs_availIn (s : St) (io : Io) (del : Bytes) : (absOf s io del).availIn = io.availIn := rfl
+theorem abs_s (s : St) (io : Io) (del : Bytes) : (absOf s io del).s = core s := rfl
+theorem abs_out (s : St) (io : Io) (del : Bytes) : (absOf s io del).out = del ++ io.out ++ s.pending := rfl
+
+set_option maxRecDepth 4000 in
+/-- **every atomic step is a stutter or exactly one step of the abstract machine** -/
+theorem step_abs {o : Oracle} {op : Nat} {s s' : St} {io io' : Io} {e : Ev}
+    (h : Step o op (s, io) e (s', io')) (hop2 : op ≤ 2) (del : Bytes) :
+    absOf s' io' del = absOf s io del ∨ ustep o op (absOf s io del) = some (absOf s' io' del) := by
+  cases h with
+  | init hf =>
+    right
+    have hi : (absOf s io del).s.isInitialized = false := by
+      show s.isInitialized = false
+      exact isFreshInit hf
+    unfold ustep
+    rw [if_pos hi]
+    simp only [absOf, core_ensure, ensure_pending]
+  | copy hI hw hop hnf hst hrm hc hn h =>
+    right
+    have hi : ¬ ((absOf s io del).s.isInitialized = false) := by
+      show ¬ (s.isInitialized = false); rw [hI.init]; simp
+    have hnf' : ¬ fastMode (absOf s io del).s.params := hnf
+    have hc' : remainingInputBlockSize (absOf s io del).s ≠ 0 ∧ (absOf s io del).availIn ≠ 0 := hc
+    unfold ustep
+    rw [if_neg hi, if_neg hnf', if_pos hc']
+    obtain ⟨y', hy, hcy⟩ := copy_core hI.init h
+    obtain ⟨_, _, _, _, _, _, _, _, c9, _⟩ := copy_fields hI.init h
+    unfold uCopy
+    have hn' : ¬ (min (remainingInputBlockSize (absOf s io del).s) (absOf s io del).availIn > (absOf s io del).input.length) := by
+      have : copyN s io ≤ io.input.length := hn
+      show ¬ (copyN s io > io.input.length)
+      omega
+    rw [if_neg hn']
+    have hy' : copyInputToRingBuffer (absOf s io del).s ((absOf s io del).input.take (min (remainingInputBlockSize (absOf s io del).s) (absOf s io del).availIn)) (absOf s io del).input.length = .ok y' := hy
+    rw [hy']
+    simp only [uCopyOf, absOf, hcy, c9]
+    rfl
+  | pad hI hc hz h =>
+    right
+    obtain ⟨nx, rfl⟩ := pad_result h
+    have hi : ¬ ((absOf s io del).s.isInitialized = false) := by
+      show ¬ (s.isInitialized = false); rw [hI.init]; simp
+    have hc' : PadDue (absOf s io del).s := hc
+    have hnc : ¬ (remainingInputBlockSize (absOf s io del).s ≠ 0 ∧ (absOf s io del).availIn ≠ 0) := by
+      intro hh; exact hh.2 hz
+    have hres : uPad (absOf s io del) = absOf (padResult s nx) io del := by
+      simp [uPad, absOf, padResult, core, List.append_assoc]
+    unfold ustep
+    rw [if_neg hi]
+    by_cases hfm : fastMode (absOf s io del).s.params
+    · rw [if_pos hfm, if_pos hc', hres]
+    · rw [if_neg hfm, if_neg hnc, if_pos hc', hres]
+  | push hI hc h =>
+    left
+    obtain ⟨c1, _⟩ := push_conserve' hc h
+    obtain ⟨_, _, _, _, _, _, _, a8, a9, _⟩ := push_frame h
+    simp only [absOf, push_core hc h, a8, a9, List.append_assoc, c1]
+  | encSlow hI hop hnf hrm hnc hnp hpend hst hgo h =>
+    rename_i s2 req
+    right
+    have hi : ¬ ((absOf s io del).s.isInitialized = false) := by
+      show ¬ (s.isInitialized = false); rw [hI.init]; simp
+    have hnf' : ¬ fastMode (absOf s io del).s.params := hnf
+    have hnc' : ¬ (remainingInputBlockSize (absOf s io del).s ≠ 0 ∧ (absOf s io del).availIn ≠ 0) := hnc
+    have hnp' : ¬ PadDue (absOf s io del).s := hnp
+    have hgo' : (absOf s io del).s.streamState = .processing ∧ (remainingInputBlockSize (absOf s io del).s = 0 ∨ op ≠ 0) := ⟨hst, hgo⟩
+    unfold ustep
+    rw [if_neg hi, if_neg hnf', if_neg hnc', if_neg hnp', if_pos hgo']
+    have hu := encode_abs h
+    rw [core_updateSizeHint] at hu
+    unfold uEncStep
+    have hu' : uEnc o (updateSizeHint (absOf s io del).s (absOf s io del).availIn) 0
+        (decide ((absOf s io del).availIn = 0 ∧ op = 2)) (decide ((absOf s io del).availIn = 0 ∧ op = 1)) = some (core s2, s2.pending) := hu
+    rw [hu']
+    simp only [uEncOut, absOf, hpend, List.append_nil, markAfterEncode_pending]
+    rw [← core_markAfterEncode]
+  | cfc hI hop hrm hnp hfl =>
+    by_cases hfc : s.streamState = .flushRequested ∧ s.pending.length = 0
+    · right
+      have hi : ¬ ((absOf s io del).s.isInitialized = false) := by
+        show ¬ (s.isInitialized = false); rw [hI.init]; simp
+      have hnp' : ¬ PadDue (absOf s io del).s := hnp
+      have hst' : (absOf s io del).s.streamState = .flushRequested := hfc.1
+      have hnproc : ¬ ((absOf s io del).s.streamState = .processing ∧ ((absOf s io del).availIn ≠ 0 ∨ op ≠ 0)) := by
+        intro hh; rw [hst'] at hh; cases hh.1
+      have hnproc2 : ¬ ((absOf s io del).s.streamState = .processing ∧ (remainingInputBlockSize (absOf s io del).s = 0 ∨ op ≠ 0)) := by
+        intro hh; rw [hst'] at hh; cases hh.1
+      have hnc : ¬ (remainingInputBlockSize (absOf s io del).s ≠ 0 ∧ (absOf s io del).availIn ≠ 0) := by
+        intro hh; exact hh.2 (hfl (by rw [hfc.1]; simp))
+      have hres : uCfc (absOf s io del) = absOf (checkFlushComplete s) io del := by
+        unfold checkFlushComplete
+        rw [if_pos hfc]
+        simp [uCfc, absOf, core]
+      unfold ustep
+      rw [if_neg hi]
+      by_cases hfm : fastMode (absOf s io del).s.params
+      · rw [if_pos hfm, if_neg hnp', if_neg hnproc, if_pos hst', hres]
+      · rw [if_neg hfm, if_neg hnc, if_neg hnp', if_neg hnproc2, if_pos hst', hres]
+    · left
+      unfold checkFlushComplete
+      rw [if_neg hfc]
+  | fastFlush hI hfm hrm hnp hpend hst hop1 hz =>
+    right
+    have hi : ¬ ((absOf s io del).s.isInitialized = false) := by
+      show ¬ (s.isInitialized = false); rw [hI.init]; simp
+    have hfm' : fastMode (absOf s io del).s.params := hfm
+    have hnp' : ¬ PadDue (absOf s io del).s := hnp
+    have hgo : (absOf s io del).s.streamState = .processing ∧ ((absOf s io del).availIn ≠ 0 ∨ op ≠ 0) := ⟨hst, Or.inr (by omega)⟩
+    have hbs : uFastBs (absOf s io del) = 0 := by
+      show min (2 ^ s.params.lgwin.toNat) io.availIn = 0
+      rw [hz]; exact Nat.min_zero _
+    have hff : (uFastReq op (absOf s io del)).forceFlush = true ∧ uFastBs (absOf s io del) = 0 := by
+      refine ⟨?_, hbs⟩
+      show decide ((absOf s io del).availIn = uFastBs (absOf s io del) ∧ op = 1) = true
+      rw [hbs]
+      have : (absOf s io del).availIn = 0 := hz
+      simp [this, hop1]
+    unfold ustep
+    rw [if_neg hi, if_pos hfm', if_neg hnp', if_pos hgo, if_pos hff]
+    rfl
+  | fastBlock hI hfm hop hrm hnp hpend hst hgo hnf hcap hin hfit =>
+    right
+    have hi : ¬ ((absOf s io del).s.isInitialized = false) := by
+      show ¬ (s.isInitialized = false); rw [hI.init]; simp
+    have hfm' : fastMode (absOf s io del).s.params := hfm
+    have hnp' : ¬ PadDue (absOf s io del).s := hnp
+    have hgo' : (absOf s io del).s.streamState = .processing ∧ ((absOf s io del).availIn ≠ 0 ∨ op ≠ 0) := ⟨hst, hgo⟩
+    have hnf' : ¬ ((uFastReq op (absOf s io del)).forceFlush = true ∧ uFastBs (absOf s io del) = 0) := by
+      rw [uFastReq_abs, uFastBs_abs]; exact hnf
+    have hin' : ¬ (uFastBs (absOf s io del) > (absOf s io del).input.length) := by
+      rw [uFastBs_abs, abs_input]; exact hin
+    unfold ustep
+    rw [if_neg hi, if_pos hfm', if_neg hnp', if_pos hgo', if_neg hnf']
+    unfold uFast
+    rw [if_neg hin']
+    simp only [uFastReq_abs, uFastBs_abs, abs_input, abs_availIn, abs_s, abs_out]
+    obtain ⟨f1, f2, f3, _⟩ := fastStorage_fields s (fastInplace s io) (fastMaxOut s io)
+    have hp1 : (fastS1 s io).pending = [] := by unfold fastS1; rw [f1, hpend]
+    obtain ⟨g1, g2, g3, g4⟩ := fastEncode_abs (fastS1 s io) io (o s.nEnc (fastReq op s io)) (fastReq op s io) (fastBs s io)
+      (fastInplace s io) (fastReq op s io).isLast (fastReq op s io).forceFlush hp1
+    have hcs1 : core (fastS1 s io) = core s := by
+      unfold fastS1 fastStorage growStorage core
+      split
+      · rfl
+      · split <;> rfl
+    have hcar : (fastS1 s io).carry = s.carry := by unfold St.carry fastS1; rw [f2, f3]
+    obtain ⟨_, _, _, _, _, _, _, hss, _, _, _, _, _, hne, hob, _⟩ := core_eq_iff.mp hcs1
+    simp only [Option.some.injEq]
+    have hgoal : absOf (fastRes o op s io).1 (fastRes o op s io).2 del =
+        ⟨core (fastRes o op s io).1, del ++ (fastRes o op s io).2.out ++ (fastRes o op s io).1.pending,
+         (fastRes o op s io).2.input, (fastRes o op s io).2.availIn⟩ := rfl
+    rw [hgoal]
+    unfold fastRes
+    simp only [Abs.mk.injEq]
+    refine ⟨?_, ?_, g3.symm, g4.symm⟩
+    · rw [g1, hcs1, hcar, hne, hob, hss]
+      rfl
+    · refine Eq.trans ?_ (congrArg (fun x => del ++ x) g2.symm |>.trans (List.append_assoc _ _ _).symm)
+      rw [hcar, hpend]
+      simp only [List.nil_append, List.append_assoc]
+      rfl
+  | mdEnter hI hop hentry => omega
+  | mdEnc hM hop hpend hne h => omega
+  | mdHead hM hop hpend hlf hst hok => omega
+  | mdDone hM hop hpend hlf hst hz => omega
+  | mdOut hM hop hpend hlf hst hnz hao hle => omega
+  | mdTiny hM hop hpend hlf hst hnz hao hle => omega
+
 end BV.Stream
